@@ -77,5 +77,5 @@ MANIFEST = {
             "child removed and re-added during its key roll). rpki-rs resource arithmetic, real "
             "certificates and the wall clock are outside the model.",
     "technique": "Lean 4 proof (invariants by induction over command histories, finite abstraction + decide, concrete counter-examples) "
-                 "+ source translator (bodies of CertifiedKey::wants_update and of the keys_for_requests part of KeyState::append_entitlement_events = the model: gen_wants_update_eq_model, gen_keys_for_requests_eq_model) + correspondence check",
+                 "+ source translator (bodies of CertifiedKey::wants_update and of the keys_for_requests part of KeyState::append_entitlement_events = the model: gen_wants_update_eq_model, gen_keys_for_requests_eq_model; the four mutators of ChildCertificates and its is_empty = the model: gen_add_issued_certificate_eq_model, gen_unsuspend_certificate_eq_model, gen_suspend_certificate_eq_model, gen_remove_revoked_key_eq_model, gen_is_empty_iff) + correspondence check",
 }
